@@ -396,11 +396,18 @@ impl CodeGen<'_> {
 
     /// full body for a function (without final End): magic prefix, gadgets, default results
     pub fn body(&mut self, magic: i64, size: usize) -> Vec<Ins> {
-        let mut out = vec![Ins::I64Const(magic), Ins::Drop];
+        let mut out = vec![];
         let mut budget = size as i32;
+        let mut boundaries = vec![0usize];
         while budget > 0 {
             self.gadget(&mut out, 0, &mut budget);
+            boundaries.push(out.len());
         }
+        // the fingerprint pair usually opens the body, but not always: a function may as well
+        // start with a block or any other instruction
+        let at = if self.rng.chance(3, 5) { 0 } else { *self.rng.pick(&boundaries) };
+        out.insert(at, Ins::Drop);
+        out.insert(at, Ins::I64Const(magic));
         for t in self.results.clone() {
             push_default(&mut out, t);
         }
@@ -937,22 +944,48 @@ pub fn gen_base(rng: &mut Rng, p: &Profile, st: &mut GenState) -> ModuleSpec {
     if p.customs {
         let n = rng.range(0, 5);
         for _ in 0..n {
-            let name = match rng.below(6) {
-                0 => String::new(),
-                1 => "dup".to_string(),
-                2 => "producers-ish".to_string(),
-                _ => st.names.next("cs"),
-            };
-            let len = rng.range(0, 8);
+            let (name, data) = custom_name_and_data(rng, st);
             m.customs.push(CustomSpec {
                 name,
-                data: rng.bytes(len),
+                data,
                 place: rng.below(14) as u8,
             });
         }
         m.customs.sort_by_key(|c| c.place);
     }
     m
+}
+
+/// Names include the ones wasmparser recognises as "known" custom sections (they take different
+/// paths in the parser); contents are arbitrary except for `producers`, which the library insists
+/// on being well-formed.
+pub fn custom_name_and_data(rng: &mut Rng, st: &mut GenState) -> (String, Vec<u8>) {
+    let len = rng.range(0, 8);
+    let data = rng.bytes(len);
+    match rng.below(16) {
+        0 => (String::new(), data),
+        1 => ("dup".to_string(), data),
+        2 => ("producers-ish".to_string(), data),
+        3 => {
+            // zero fields, or one field "language" with one (name, version) pair
+            if rng.chance(1, 2) {
+                ("producers".to_string(), vec![0])
+            } else {
+                let mut d = vec![1u8, 8];
+                d.extend_from_slice(b"language");
+                d.extend_from_slice(&[1, 1, b'R', 1, b'1']);
+                ("producers".to_string(), d)
+            }
+        }
+        4 => ("component-name".to_string(), data),
+        5 => ("linking".to_string(), data),
+        6 => ("dylink.0".to_string(), data),
+        7 => ("reloc.CODE".to_string(), data),
+        8 => ("target_features".to_string(), data),
+        9 => (rng.pick(&["core", "coremodules", "coreinstances", "corestack"]).to_string(), data),
+        10 => ("metadata.code.branch_hint".to_string(), data),
+        _ => (st.names.next("cs"), data),
+    }
 }
 
 fn gen_st(rng: &mut Rng) -> ST {
@@ -1304,10 +1337,18 @@ impl OpGen<'_> {
                 } else {
                     let mem = *self.rng.pick(&mems);
                     let mt = m.mems[mem as usize].ty;
+                    // offsets: constants, or global.get of an immutable imported i32 global
+                    let imm: Vec<u32> = m
+                        .alive_globals()
+                        .into_iter()
+                        .filter(|g| matches!(&m.globals[*g as usize].kind, MGK::Import { ty: VT::I32, mutable: false, .. }))
+                        .collect();
                     DataMode::Active {
                         mem,
                         offset: if mt.memory64 {
                             ConstE::I64(self.rng.below(50) as i64)
+                        } else if !imm.is_empty() && self.rng.chance(1, 3) {
+                            ConstE::GlobalGet(*self.rng.pick(&imm))
                         } else {
                             ConstE::I32(self.rng.below(50) as i32)
                         },
@@ -1378,13 +1419,8 @@ impl OpGen<'_> {
                 Some(Op::AddType { req, with_params, tag: self.tag() })
             }
             "custom_add" => {
-                let name = match self.rng.below(5) {
-                    0 => String::new(),
-                    1 => "dup".into(),
-                    _ => self.st.names.next("ca"),
-                };
-                let len = self.rng.range(0, 8);
-                Some(Op::CustomAdd { name, data: self.rng.bytes(len) })
+                let (name, data) = custom_name_and_data(self.rng, self.st);
+                Some(Op::CustomAdd { name, data })
             }
             "custom_delete" => {
                 if m.customs.is_empty() {
@@ -1648,5 +1684,6 @@ pub fn gen_scenario(property: &str, p: &Profile, run_seed: u64, reencode_tail: b
         exec: None,
         info: None,
         walk: None,
+        comp: None,
     })
 }
